@@ -25,4 +25,4 @@ ASSUMPTIONS = ["similar::TextDiff computes a correct line diff and prints a corr
 
 def run(ctx):
     return [r_diff.rule_args(ctx, "C18"), r_diff.rule_none(ctx, "C18"), r_cli.rule_nodiff(ctx, "C18"),
-            r_diff.rule_json(ctx, "C18"), r_diff.rule_unified(ctx, "C18"), r_diff.rule_summary(ctx, "C18"), r_cli.rule_check_verdict(ctx, "C18"), r_diff.rule_report_bytes(ctx, "C18")]
+            r_diff.rule_json(ctx, "C18"), r_diff.rule_unified(ctx, "C18"), r_diff.rule_summary(ctx, "C18"), r_cli.rule_check_verdict(ctx, "C18"), r_diff.rule_report_bytes(ctx, "C18"), r_diff.rule_json_fields(ctx, "C18")]
